@@ -179,7 +179,7 @@ def _run(ctx: Ctx) -> Result:
         # ---- script path
         own = auth([prefix, code], sf, record=False)[0] if prefix else auth([code], sf, record=False)[0]
         def scriptpath(what, s, k, lk=lock.bytes):
-            recomputes = (len(k) == 32 and ed.dec(k) is not None and lk[2:34] == ed.enc(ed.add(ed.dec(k), ed.mul(int.from_bytes(hashlib.sha256(k + hashlib.sha256(s).digest()).digest(), 'little') & (2**255 - 1), ed.B))))
+            recomputes = (len(k) == 32 and ed.dec(k) is not None and ed.mul(ed.L, ed.dec(k)) == (0, 1) and lk[2:34] == ed.enc(ed.add(ed.dec(k), ed.mul(int.from_bytes(hashlib.sha256(k + hashlib.sha256(s).digest()).digest(), 'little') & (2**255 - 1), ed.B))))
             w = prefix + push(s) + push(k)
             ok, o, tapes = auth([w, lk], sf)
             c = case([w, lk])
@@ -202,6 +202,12 @@ def _run(ctx: Ctx) -> Result:
         scriptpath('another key', code, bytes(SigningKey(V.rbytes(rng, 32)).verify_key))
         scriptpath('the root itself as key', code, root)
         scriptpath('a small-order / mixed-order / invalid point as key', code, keys.point(rng)[:32].ljust(32, b'\x00'))
+        # a key that is on the curve but not in the prime-order group (P + a point of order 8) is not a key: the builder refuses
+        # it, and a lock whose root was computed for it by the documented formula must not run the script either
+        T8 = ed.dec(bytes.fromhex('c7176a703d4dd84fba3c0b760d10670f2a2053fa2c39ccc64ec7fd7792ac037a'))
+        Kt = ed.enc(ed.add(ed.dec(pk), T8))
+        lkt = lock.bytes[:2] + ed.taproot_root(Kt, code) + lock.bytes[34:]
+        scriptpath('key with a torsion component (P + order-8 point), root computed for it by the formula', code, Kt, lkt)
         j = rng.randrange(32); lk2 = lock.bytes[:2 + j] + bytes([lock.bytes[2 + j] ^ (1 << rng.randrange(8))]) + lock.bytes[3 + j:]
         scriptpath('one bit of the root in the lock flipped', code, pk, lk2)
         okk, o, _ = auth([wk.bytes, lk2], sf)
